@@ -24,6 +24,7 @@ mod proj_c08;
 mod proj_c13;
 mod proj_c16;
 mod proj_c20;
+mod slicelex;
 // the binary-private modules of slicec, compiled from the repository's current files
 #[path = "/repo/slicec/src/definition_types.rs"]
 #[allow(dead_code, unused_imports)]
@@ -118,6 +119,7 @@ fn run_case(engine: &str, f: &[&str]) -> CaseResult {
         ("files", ["tree", _fam, tree, argv, exp]) => files::run_tree(tree, argv, exp),
         ("compile", ["perm", _fam, opts, files, orders, exp]) => perm::run_perm(opts, files, orders, exp),
         ("compile", ["compile", _fam, proj, opts, files, exp]) => compile::run_compile(proj, opts, files, exp),
+        ("slicelex", ["lex", _fam, text, exp]) => slicelex::run_lex(text, exp),
         ("options", ["spec", _fam, hx, exp]) => options::run_spec(hx, exp),
         ("options", ["specd", _fam, hx, exp]) => options::run_spec_detached(hx, exp),
         ("options", ["multi", _fam, hxs, exp]) => options::run_multi(hxs, exp),
